@@ -33,7 +33,9 @@ func scenario(bodies []string, life string, bounds []int) *vexp.Scenario {
 			if life == "restarting" {
 				// the root's strategy decides for root children
 				opts = append(opts, vivid.WithActorSystemSupervisionStrategy(vivid.OneForOneStrategy(vivid.SupervisionStrategyDecisionMakerFN(
-					func(vivid.SupervisionContext) (vivid.SupervisionDecision, string) { return vivid.SupervisionDecisionRestart, "scripted" }))))
+					func(vivid.SupervisionContext) (vivid.SupervisionDecision, string) {
+						return vivid.SupervisionDecisionRestart, "scripted"
+					}))))
 			}
 			w := vsys.NewWorld(x, opts...)
 			w.Quiet = true
